@@ -731,13 +731,51 @@ def r8_constants(ctx, rule):
     if yok:
         ctx.ok(rule, yq, "year = 4-character slice after a '19'/'20' prefix, digits at +2/+3, non-digit neighbours")
     else:
-        ctx.bad(rule, yq, 'year shape', 'years are four digits starting 19 or 20, not part of a longer digit run', None, yfn)
+        # not the confirmed spelling: report what is recognisably wrong, otherwise say that the shape is not understood
+        wrong = []
+        ystores = stores_in(yfn)
+        pref = [v for lst in ystores.values() for s_, v in lst if isinstance(v, (ast.List, ast.Tuple)) and v.elts
+                and all(isinstance(const(e), str) and const(e).isdigit() for e in v.elts)]
+        pref += [n.iter for n in walk_local(yfn) if isinstance(n, ast.For) and isinstance(n.iter, (ast.List, ast.Tuple)) and n.iter.elts
+                 and all(isinstance(const(e), str) and const(e).isdigit() for e in n.iter.elts)]
+        for v in pref:
+            if sorted(const(e) for e in v.elts) != ['19', '20']:
+                wrong.append('year prefixes %s' % U(v))
+        for t in [n for n in walk_local(yfn) if isinstance(n, ast.Tuple) and len(n.elts) == 2 and const(n.elts[1]) == 'Y1']:
+            seg = expand(yfn, t.elts[0], ystores)
+            if isinstance(seg, ast.Subscript) and isinstance(seg.slice, ast.Slice) and seg.slice.lower is not None and seg.slice.upper is not None:
+                lo_, hi_ = lin(seg.slice.lower), lin(seg.slice.upper)
+                if lo_ is not None and hi_ is not None and not (hi_ - lo_).t and (hi_ - lo_).c != 4:
+                    wrong.append('year segment %s is %d characters' % (U(seg), (hi_ - lo_).c))
+        if wrong:
+            ctx.bad(rule, yq, 'year shape: ' + '; '.join(wrong), 'years are four digits starting 19 or 20, not part of a longer digit run', None, yfn)
+        else:
+            ctx.unk(rule, yq, 'the year detector is not written the way the rule was confirmed on (prefix list and segment width look right; '
+                    'the digit / neighbour tests are not recognised)')
     # context: slice [i : i+len(r)] of the find result of an element of the fixed list
     cq = DET + 'context_sensitive_detection.py::detect_context_sensitive'
     cfn = ctx.fn(cq)
     txt = U(cfn)
     cok = 'for replacement in context_sensitive_replacements' in txt and 'start_index = working_string.find(replacement)' in txt \
         and "(working_string[start_index:start_index + len(replacement)], 'X1')" in txt
+    if not cok:
+        # the same thing in other spellings: the loop over a constant collection of strings (named or written in place),
+        # i = <string>.find(r), segment <string>[i : i + len(r)] labelled X1
+        cst = stores_in(cfn)
+        for lp in [n for n in walk_local(cfn) if isinstance(n, ast.For) and isinstance(n.target, ast.Name)]:
+            it = expand(cfn, lp.iter, cst)
+            if not (isinstance(it, (ast.List, ast.Tuple)) and it.elts and all(isinstance(const(e), str) for e in it.elts)):
+                continue
+            r_ = lp.target.id
+            finds = [s_ for s_ in walk_stmts(lp.body) if isinstance(s_, ast.Assign) and isinstance(s_.value, ast.Call)
+                     and isinstance(s_.value.func, ast.Attribute) and s_.value.func.attr == 'find' and len(s_.value.args) == 1
+                     and U(s_.value.args[0]) == r_ and isinstance(s_.targets[0], ast.Name)]
+            if len(finds) != 1:
+                continue
+            i_, w_ = finds[0].targets[0].id, U(finds[0].value.func.value)
+            segs = [t for t in ast.walk(lp) if isinstance(t, ast.Tuple) and len(t.elts) == 2 and const(t.elts[1]) == 'X1']
+            if len(segs) == 1 and U(segs[0].elts[0]) == '%s[%s:%s + len(%s)]' % (w_, i_, i_, r_):
+                cok = True
     if cok:
         ctx.ok(rule, cq, 'context segment = [i : i+len(r)] where i = find(r), r from the fixed list')
     else:
